@@ -174,10 +174,13 @@ def run_shard(spec):
     sh = Shard()
     for i in range(spec['cases']):
         rng = rng_for('C08', spec['seed'], spec['shard'], i)
-        if rng.random() < 0.2:
+        x = rng.random()
+        if x < 0.22:
+            case = gen.translocation_case(rng)
+        elif x < 0.38:
             case = gen.long_molecule_case(rng, nq=rng.randint(6, 10))
         else:
-            case = gen.pipeline_case(rng, ['partial', 'partial', 'chimeric', 'translocation', 'indel', 'indel', 'noisy'], param_prob=0.3,
+            case = gen.pipeline_case(rng, ['partial', 'partial', 'chimeric', 'translocation', 'indel', 'deletion-between-repeats', 'noisy'], param_prob=0.3,
                                      param_keys=('d', 'ms', 'bs', 'p'), ref_kw={'repeats': rng.random() < 0.2})
         case['params']['diff'] = rng.choice([100000, 100000, 20000, 5000, 500000, 0])
         case['gen'] = [spec['seed'], spec['shard'], i]
